@@ -9,6 +9,7 @@ mod s_props;
 mod s_main;
 mod s_c10;
 mod s_c13;
+mod s_c06a;
 mod selftest;
 mod t_c05;
 mod t_c06;
@@ -53,6 +54,9 @@ fn check(prop: &str, tier: &str) -> i32 {
       let mut r = s_main::check(prop, tier).unwrap();
       r.engine = "S+T".into();
       r.assumptions.extend(t_assumptions());
+      if prop == "C06" {
+        s_c06a::run(&mut r, tier == "thorough");
+      }
       tcommon::run_scenarios(&mut r, t_catalogue(prop).unwrap(), tier);
       report::finish(r)
     }
@@ -142,6 +146,14 @@ fn replay(path: &str) -> i32 {
       println!("VIOLATION-REPLAYED {}: {}", x.class, x.detail);
     }
     return if v.violations.is_empty() { 0 } else { 1 };
+  }
+  if engine == "S" {
+    // engine S has no schedule to replay: the deterministic enumeration of the property's quick tier is
+    // re-run (VERIF_REPLAY_TIER=thorough for a finding of the thorough tier) and the recorded key is looked for
+    let key = j.get("key").and_then(|x| x.as_str()).unwrap_or("").to_string();
+    std::env::set_var("VERIF_REPLAY_KEY", &key);
+    let tier = std::env::var("VERIF_REPLAY_TIER").unwrap_or_else(|_| "quick".to_string());
+    return check(&prop, &tier);
   }
   eprintln!("MACHINERY-ERROR: unknown engine '{}' in replay file", engine);
   2
